@@ -12,6 +12,8 @@ module-level functions, so an effect analysis over those names is exact.
           inside the per-iteration pipeline it is None only
   C09.r3  single entropy source: no `random`, time/os/secrets-derived entropy
   C09.r4  census of draw sites (evidence; floor)
+  C09.r7  nothing touches the random stream at import / definition time (default
+          arguments, decorators, class bodies, module level)
 """
 from __future__ import annotations
 
@@ -82,6 +84,7 @@ def rule_r1(ctx: Context, R: Reporter, T: Tracer):
     seeds = ctx.rng.seeds()
     # seed sites whose argument can be the configured random_state (a user origin that is a config field / public ctor param)
     user_seed_funcs = {}
+    stored_seed_funcs = {}
     for s in seeds:
         arg = call_arg(s.call, 0, "seed")
         if arg is None:
@@ -101,6 +104,8 @@ def rule_r1(ctx: Context, R: Reporter, T: Tracer):
                 dead = True  # guarded by `<seed> is None`: seeds with None only
         if from_config and not dead and not any(o.kind == "checkpoint" for o in origs):
             user_seed_funcs[s.func.qualname] = s
+        if not dead and any(o.kind == "checkpoint" for o in origs):
+            stored_seed_funcs[s.func.qualname] = s
     for (fi, loops, loads) in drivers:
         cfg = cfg_of(fi.node)
         seed_nodes = [n for (n, call, hit) in nodes_calling(ctx.cg, fi, lambda g: g.qualname in user_seed_funcs)]
@@ -117,6 +122,15 @@ def rule_r1(ctx: Context, R: Reporter, T: Tracer):
             if any(n.loops for n in seed_nodes):
                 ok = False
                 witness = {"seed_inside_loop": True}
+        # the resume path: the checkpoint load itself re-applies a seed (the recorded one), so that a seeded run that is
+        # resumed continues identically whatever the state of the ambient stream
+        resume_seed_nodes = {n.id for (n, call, hit) in nodes_calling(ctx.cg, fi, lambda g: g.qualname in stored_seed_funcs or g.qualname in user_seed_funcs)}
+        for (ln, _, _) in loads:
+            ok_r = ln.id in resume_seed_nodes
+            R.check("C09.r1", "the resume path re-applies the recorded seed before the loop continues", ok_r, fi, ln.stmt if ln.stmt is not None else fi.node,
+                    msg=f"{fi.short}: the checkpoint load `{unparse(ln.ast)[:60] if ln.ast is not None else '?'}` reaches no seeding call with the recorded / configured seed: a seeded run resumed through "
+                        f"this driver continues on whatever the ambient stream happens to be, so two resumes of the same checkpoint differ "
+                        f"(seeding sites fed from a checkpoint: {[s.loc for s in stored_seed_funcs.values()]})", key=f"seed-on-resume:{fi.short}")
         R.check(
             "C09.r1", "the configured random_state seeds the global stream before the first draw of a fresh run", ok, fi, fi.node,
             msg=f"{fi.short}: no call on the fresh-start path reaches np.random.seed(<config.random_state>) before the sampling loop; "
@@ -399,6 +413,42 @@ def rule_r6(ctx: Context, R: Reporter):
     R.analysed["C09.r6:checkpoint seed stores"] = n_ck
 
 
+def rule_r7(ctx: Context, R: Reporter):
+    """C09.r7  nothing touches the random stream when the package is imported or a function is defined: no draw, seeding
+    or generator construction in a default argument, a decorator, a class body or at module level.  Such a value is
+    produced before the user's seed is applied (not reproducible across processes) and then shared by every call."""
+    n = 0
+    kinds = ("draw", "seed", "generator", "other-numpy-random")
+    for s_ in ctx.rng.sites:
+        if s_.kind not in kinds:
+            continue
+        fn = s_.func.node
+        outside = [x for e in list(fn.args.defaults) + [k for k in fn.args.kw_defaults if k is not None] + list(fn.decorator_list) for x in ast.walk(e)]
+        n += 1
+        if any(x is s_.call for x in outside):
+            R.check("C09.r7", "no use of the random stream at definition / import time", False, s_.func, s_.call,
+                    msg=f"{s_.func.short}: `{unparse(s_.call)[:60]}` sits in a default argument / decorator: it is evaluated once at import, before any seed is applied, and the same value is "
+                        f"used by every call -- two processes with the same random_state differ, and the value never changes between calls", key=f"definition-time:{s_.func.short}")
+    for m in ctx.prog.modules.values():
+        def top(node):
+            for ch in ast.iter_child_nodes(node):
+                if isinstance(ch, (ast.FunctionDef, ast.AsyncFunctionDef, ast.Lambda)):
+                    continue
+                yield ch
+                yield from top(ch)
+        for x in top(m.tree):
+            if isinstance(x, ast.Call):
+                d = dotted(x.func)
+                head = d.split(".")[0] if d else ""
+                full = (m.imports.get(head, head) + d[len(head):]) if d else ""
+                if full.startswith("numpy.random.") or full.startswith("random."):
+                    R.check("C09.r7", "no use of the random stream at definition / import time", False, None, x,
+                            msg=f"{m.relpath}:{x.lineno}: `{unparse(x)[:60]}` runs at import time (module / class body): it is evaluated before any seed is applied", key=f"import-time:{m.relpath}:{norm_text(x)[:40]}",
+                            loc=f"{m.relpath}:{x.lineno}")
+    R.check("C09.r7", f"{n} stream-touching call sites are all statements of function bodies", True, None, None, key="definition-time-scan", loc="tempest/")
+    R.floor("C09.r7", "stream-touching call sites examined", n, 8)
+
+
 def run(ctx: Context, R: Reporter):
     T = Tracer(ctx)
     R.guard(rule_r6, ctx, R)
@@ -407,6 +457,18 @@ def run(ctx: Context, R: Reporter):
     R.guard(rule_r2, ctx, R, T)
     R.guard(rule_r3, ctx, R)
     R.guard(rule_r4, ctx, R)
+    R.guard(rule_r7, ctx, R)
+
+
+def _add_default(relpath, defpath, name, default_src):
+    from ..variants import edit
+
+    def fn(node, tree):
+        node.args.args.append(ast.arg(arg=name))
+        node.args.defaults.append(ast.parse(default_src, mode="eval").body)
+        return True
+
+    return edit(relpath, defpath, fn)
 
 
 def variants():
@@ -415,6 +477,11 @@ def variants():
     core = "tempest/core.py"
     cl = "tempest/cluster.py"
     return [
+        Variant("r7-offset-in-default-argument", "bad", chain(replace_expr("tempest/tools.py", "systematic_resample", "(np.random.random() + np.arange(size)) / size", "(offset + np.arange(size)) / size"),
+                                                               _add_default("tempest/tools.py", "systematic_resample", "offset", "np.random.random()")), ["C09.r7", "C06.c"], quick=True),
+        Variant("r7-module-level-jitter", "bad", insert_before_function("tempest/tools.py", "systematic_resample", "_JITTER = np.random.random()\n"), ["C09.r7"], quick=True),
+        Variant("r7-benign-module-level-constant", "benign", insert_before_function("tempest/tools.py", "systematic_resample", "_HALF = np.float64(0.5)\n")),
+        Variant("r1-load-does-not-reseed", "bad", replace_stmt(core, "SamplerCore.load_sampler_state", "np.random.seed(d['random_state'])", "pass"), ["C09.r1"], quick=True),
         Variant("r1-drop-seed", "bad", delete_stmt(core, "SamplerCore._initialize_fresh", "np.random.seed(self.config.random_state)"), ["C09.r1"], quick=True),
         Variant("r1-seed-only-on-resume", "bad", replace_expr(core, "SamplerCore._initialize_fresh", "self.config.random_state is not None", "self.config.random_state is None"), ["C09.r1", "ANALYSIS-ERROR"]),
         Variant("r2-literal-in-hgmm", "bad", replace_expr(cl, "HierarchicalGaussianMixture.fit", "GaussianMixture(n_components=2, covariance_type=self.covariance_type, n_init=self.n_init)", "GaussianMixture(n_components=2, covariance_type=self.covariance_type, n_init=self.n_init, random_state=42)"), ["C09.r2"], quick=True),
